@@ -188,6 +188,11 @@ Definition stored_key (k : kdf) : bytes :=
 Definition is_sha_crypt (k : kdf) : bool :=
   match k with KCryptSha256 _ | KCryptSha512 _ => true | _ => false end.
 
+Lemma VOk_inj : forall a b, VOk a = VOk b -> a = b.
+Proof. intros a b H. now injection H. Qed.
+Lemma Some_inj : forall (A : Type) (a b : A), Some a = Some b -> a = b.
+Proof. intros A a b H. now injection H. Qed.
+
 Lemma verify_full_equality : forall argon k pw,
   is_sha_crypt k = false -> verify argon k pw = VOk true ->
   blen pw <= PW_MAX_LENGTH_CHECK /\ expected_key argon k pw = Some (stored_key k).
@@ -195,12 +200,21 @@ Proof.
   intros argon k pw Hk H. unfold verify in H.
   destruct (PW_MAX_LENGTH_CHECK <? blen pw) eqn:EL; [discriminate|].
   apply N.ltb_ge in EL. split; [exact EL|].
-  destruct k; cbn [is_sha_crypt] in Hk; try discriminate; cbn [expected_key stored_key];
-    try (injection H as H; first [apply beqb_true_iff in H; now subst
-                                 | rewrite beqb_sym in H; apply beqb_true_iff in H; now subst]).
-  destruct ((v =? 16) || (v =? 19)); [|discriminate].
-  destruct (argon m t p v salt pw (length key)) as [ck|]; [|discriminate].
-  injection H as H. apply beqb_true_iff in H. now subst.
+  destruct k; cbn [is_sha_crypt] in Hk; try discriminate Hk; cbn [expected_key stored_key].
+  - destruct ((v =? 16) || (v =? 19)); [|discriminate H].
+    destruct (argon m t p v salt pw (length key)) as [ck|]; [|discriminate H].
+    apply VOk_inj in H. apply beqb_true_iff in H. f_equal. exact H.
+  - apply VOk_inj in H. apply beqb_true_iff in H. f_equal. exact H.
+  - apply VOk_inj in H. apply beqb_true_iff in H. f_equal. exact H.
+  - apply VOk_inj in H. apply beqb_true_iff in H. f_equal. exact H.
+  - apply VOk_inj in H. apply beqb_true_iff in H. f_equal. symmetry. exact H.
+  - apply VOk_inj in H. apply beqb_true_iff in H. f_equal. symmetry. exact H.
+  - apply VOk_inj in H. apply beqb_true_iff in H. f_equal. symmetry. exact H.
+  - apply VOk_inj in H. apply beqb_true_iff in H. f_equal. symmetry. exact H.
+  - apply VOk_inj in H. apply beqb_true_iff in H. f_equal. symmetry. exact H.
+  - apply VOk_inj in H. apply beqb_true_iff in H. f_equal. symmetry. exact H.
+  - apply VOk_inj in H. apply beqb_true_iff in H. f_equal. exact H.
+  - apply VOk_inj in H. apply beqb_true_iff in H. f_equal. exact H.
 Qed.
 
 (* sha-crypt: acceptance means the whole digest, in the crypt(3) byte order, equals the decoded
@@ -214,7 +228,7 @@ Lemma sha_check_full_equality : forall is512 pw hv,
 Proof.
   intros is512 pw hv H. unfold sha_check in H.
   destruct (sha_prepare is512 hv) as [| |salt r d]; try discriminate.
-  exists salt, r, d. split; [reflexivity|]. injection H as H. now apply beqb_true_iff in H.
+  exists salt, r, d. split; [reflexivity|]. apply VOk_inj in H. now apply beqb_true_iff in H.
 Qed.
 
 (* ------------------------------------------------------------------ verdict = indep_accepts *)
@@ -310,7 +324,7 @@ Proof.
   set (f := fun ut : bytes * bytes => let u' := prf pw (fst ut) in (u', xor_bytes (snd ut) u')).
   assert (Inv : length (fst (N.iter (c - 1) f (prf pw (salt ++ be_bytes 4 i), prf pw (salt ++ be_bytes 4 i)))) = hlen
                 /\ length (snd (N.iter (c - 1) f (prf pw (salt ++ be_bytes 4 i), prf pw (salt ++ be_bytes 4 i)))) = hlen).
-  { apply (N.iter_invariant (c - 1) f (fun x => length (fst x) = hlen /\ length (snd x) = hlen)).
+  { apply (N.iter_invariant (c - 1) _ f (fun x => length (fst x) = hlen /\ length (snd x) = hlen)).
     - intros [u t] [Hu Ht]. cbn [fst snd] in *. unfold f. cbn [fst snd]. split; [apply Hprf|].
       apply xor_bytes_length; [exact Ht | apply Hprf].
     - cbn [fst snd]. split; apply Hprf. }
@@ -342,9 +356,12 @@ Proof.
   intros k m. unfold hmac_sha256, hmac. apply sha256_length.
 Qed.
 
-(* the Argon2id primitive returns as many bytes as it is asked for *)
+(* the Argon2id primitive returns as many bytes as it is asked for, and whether it fails depends
+   on the parameters only, not on the cleartext *)
 Definition oracle_len (argon : argon_oracle) : Prop :=
-  forall m t p v salt pw n d, argon m t p v salt pw n = Some d -> length d = n.
+  (forall m t p v salt pw n d, argon m t p v salt pw n = Some d -> length d = n) /\
+  (forall m t p v salt pw pw' n d, argon m t p v salt pw n = Some d ->
+                                    argon m t p v salt pw' n <> None).
 
 Theorem roundtrip_proved : forall argon g pw0 d0 pw,
   oracle_len argon ->
@@ -359,14 +376,15 @@ Proof.
     cbn [proved_fmt] in Hp; try discriminate.
   - (* Argon2id via DbPasswordV1 *)
     cbn [digest] in Hd |- *. cbn [print_stored model_outcome]. unfold verify. rewrite HL, Hp.
-    rewrite (Horacle _ _ _ _ _ _ _ _ Hd).
-    destruct (argon m t p v salt pw klen) as [d|]; reflexivity.
+    rewrite (proj1 Horacle _ _ _ _ _ _ _ _ Hd).
+    destruct (argon m t p v salt pw klen) as [d|] eqn:E; [reflexivity|].
+    exfalso. exact (proj2 Horacle _ _ _ _ _ _ pw _ _ Hd E).
   - (* PBKDF2 via DbPasswordV1 *)
-    cbn [digest] in Hd |- *. injection Hd as Hd. subst d0.
+    cbn [digest] in Hd |- *. apply Some_inj in Hd. subst d0.
     cbn [print_stored model_outcome]. unfold verify. rewrite HL.
     now rewrite pbkdf2_sha256_length.
   - (* {SHA} {SHA256} {SHA512} *)
-    cbn [wf] in Hwf. cbn [digest] in Hd |- *. injection Hd as Hd. subst d0.
+    cbn [wf] in Hwf. cbn [digest] in Hd |- *. apply Some_inj in Hd. subst d0.
     cbn [print_stored model_outcome]. rewrite (parse_sha_scheme bits up _ Hwf).
     unfold parse_plain_sha. rewrite b64_std_roundtrip by apply sha_of_bytes.
     rewrite sha_of_length, Nat.eqb_refl.
@@ -376,7 +394,7 @@ Proof.
     cbn [wf] in Hwf. apply andb_true_iff in Hwf. destruct Hwf as [Hwf Hsl].
     apply andb_true_iff in Hwf. destruct Hwf as [Hbits Hsalt].
     apply Nat.leb_le in Hsl.
-    cbn [digest] in Hd |- *. injection Hd as Hd. subst d0.
+    cbn [digest] in Hd |- *. apply Some_inj in Hd. subst d0.
     cbn [print_stored model_outcome]. rewrite (parse_ssha_scheme bits up _ Hbits).
     unfold parse_salted_sha.
     rewrite b64_std_roundtrip by (apply Bytes_app; [apply sha_of_bytes | now apply is_bytes_Bytes]).
@@ -391,13 +409,13 @@ Proof.
     unfold sha_of. destruct (bits =? 1); [|destruct (bits =? 256)];
       unfold verify; rewrite HL; now rewrite beqb_sym.
   - (* sambaNTPassword *)
-    cbn [digest] in Hd |- *. injection Hd as Hd. subst d0.
+    cbn [digest] in Hd |- *. apply Some_inj in Hd. subst d0.
     cbn [print_stored model_outcome]. rewrite parse_samba_prefix. unfold parse_samba.
     rewrite hex_roundtrip by apply md4_bytes.
     unfold verify. now rewrite HL.
   - (* {crypt}$1$ *)
     cbn [wf] in Hwf. apply andb_true_iff in Hwf. destruct Hwf as [Hh64 _].
-    cbn [digest] in Hd |- *. injection Hd as Hd. subst d0.
+    cbn [digest] in Hd |- *. apply Some_inj in Hd. subst d0.
     cbn [print_stored model_outcome]. rewrite parse_md5crypt_prefix.
     change (salt ++ [36] ++ md5crypt pw0 salt) with (salt ++ 36 :: md5crypt pw0 salt).
     rewrite split_once_app by now apply is_h64_no_dollar.
@@ -416,14 +434,17 @@ Definition no_argon : argon_oracle := fun _ _ _ _ _ _ _ => None.
 Definition long_pw : bytes := repeat 97 513.
 
 Lemma long_pw_refutes :
-  model_outcome no_argon (print_stored (GSha 1 true) (sha1 long_pw)) long_pw = OVer (VOk false) /  indep_accepts no_argon (GSha 1 true) long_pw long_pw = true.
+  model_outcome no_argon (print_stored (GSha 1 true) (sha_of 1 long_pw)) long_pw = OVer (VOk false) /\
+  indep_accepts no_argon (GSha 1 true) long_pw long_pw = true.
 Proof. split; vm_compute; reflexivity. Qed.
 
 Theorem full_statement_refuted : ~ full_statement.
 Proof.
   intros F.
-  assert (Ho : oracle_len no_argon) by (intros m t p v salt pw n d H; discriminate).
-  specialize (F no_argon (GSha 1 true) long_pw (sha1 long_pw) long_pw Ho eq_refl eq_refl).
+  assert (Ho : oracle_len no_argon) by (split; intros; discriminate).
+  assert (Hd : digest no_argon (GSha 1 true) long_pw = Some (sha_of 1 long_pw)) by (cbn [digest]; reflexivity).
+  assert (Hw : wf (GSha 1 true) = true) by (vm_compute; reflexivity).
+  specialize (F no_argon (GSha 1 true) long_pw (sha_of 1 long_pw) long_pw Ho Hw Hd).
   destruct long_pw_refutes as [H1 H2]. rewrite H1, H2 in F. discriminate.
 Qed.
 
@@ -495,7 +516,9 @@ Qed.
    independent verdict for every candidate *)
 Theorem pcheck_sound : forall c g pw0,
   cgen c = Some (g, pw0) -> pcheck c = true ->
-  wf g = true /  exists d0, digest (oracle_of (coracle c)) g pw0 = Some d0 /\ cstored c = print_stored g d0 /    forall pw o, In (pw, o) (catt c) -> o = OVer (VOk (indep_accepts (oracle_of (coracle c)) g pw0 pw)).
+  wf g = true /\
+  exists d0, digest (oracle_of (coracle c)) g pw0 = Some d0 /\ cstored c = print_stored g d0 /\
+    forall pw o, In (pw, o) (catt c) -> o = OVer (VOk (indep_accepts (oracle_of (coracle c)) g pw0 pw)).
 Proof.
   intros c g pw0 Hg H. unfold pcheck in H. rewrite Hg in H.
   destruct (digest (oracle_of (coracle c)) g pw0) as [d0|] eqn:Hd; [|discriminate].
